@@ -73,6 +73,7 @@ def lockset_units(prop):
 FAMILIES = {
     "C43": ["lockset"],
     "C42": ["catchsched"],
+    "C09": ["guard"],
     "C05": ["op"],
     "C06": ["op"],
     "C07": ["slice"],
@@ -105,6 +106,8 @@ def units_for(prop, tier):
         us += forward_units(prop)
     if "class" in fams:
         us += class_units(prop)
+    if "guard" in fams:
+        us.append({"runner": "guard", "prop": prop, "id": f"guard-conditions/{prop}"})
     if "catchsched" in fams:
         us.append({"runner": "catchsched", "prop": prop, "id": "reactivex/scheduler/catchscheduler.py::CatchScheduler"})
     if "lockset" in fams:
